@@ -14,9 +14,9 @@ PROP = dict(
                 "requested and every unknown one is; each field receives the current value of exactly its own name (fresh buffer for []byte, text, handle of this store "
                 "bound to that name, UnmarshalBinary called with exactly the bytes, json.Unmarshal of the bytes); untagged and invisible fields are untouched; a []byte "
                 "field never holds a store buffer, so overwriting it cannot change what any store state serves; non-pointer/non-struct arguments (incl. the untyped nil and nil struct pointers of any shape), empty names, unsupported "
-                "types without the json verb and structs without tagged fields - and only those - are rejected before any request; every field is processed whatever the "
+                "types without the json verb and structs without tagged fields - and only those - are rejected before any request; with several configured structs NewStore's composed Apply reports an error iff some struct's Apply does and stops at the first such struct, and every applied struct gets the results of its own (prefix, fields) whatever the other entries are (also other values of the same type); every field is processed whatever the "
                 "others do, the reported errors are exactly the failing fields, and whether a field fails depends on that field alone. Tied to the code by run-time generated "
-                "struct types driven through NewStore(Structs), ParseFields+Apply and ParseFields -> NewStore{Secrets: f.Secrets()} -> Apply with the returned slice scribbled on, and ONE parsed Fields applied twice (to a second store with other bytes, or to the same store across a Refresh; fields compared after each Apply) (with and without AllowLookup) against a scripted StoreClient; requested names, both results of Secrets(), "
+                "struct types driven through NewStore(Structs), ParseFields+Apply and ParseFields -> NewStore{Secrets: f.Secrets()} -> Apply with the returned slice scribbled on, several struct values in one process (two or three values, mostly of ONE struct type, through NewStore{Structs: [...]} with failure scripts at every position and through ParseFields in order + Apply in either order; every leaf of every value compared), and ONE parsed Fields applied twice (to a second store with other bytes, or to the same store across a Refresh; fields compared after each Apply) (with and without AllowLookup) against a scripted StoreClient; requested names, both results of Secrets(), "
                 "error class, number of joined errors, every field's content, handle binding after a refresh and the store's bytes after overwriting each []byte field "
                 "are compared with the model inside coqc."),
     level_note=("Trusted: Coq kernel+VM; the tie is differential (sampled shapes, 0-8 members, one level of embedding by value). Inputs of the model, not predictions: what "
@@ -28,9 +28,9 @@ PROP = dict(
           "structs embedded by value with colliding promoted names; tags name / name,json / other verbs / empty names; 70% of shapes forced valid; argument: pointer 86%, struct by value 4%, non-struct 4%, untyped nil 2%, nil pointer to the struct 4%), clean prefixes (30% empty, "
           "else 1-3 segments) and names, random values incl. empty, non-UTF-8, valid and invalid JSON and values the unmarshaler refuses; 30% through NewStore(Structs), 20% re-apply (one Fields, two Applies), 20% declare-via-Secrets() "
           "(tag names deliberately unsorted, 40% with a name used twice, the returned slice sorted/reversed/overwritten/cleared/rotated before Apply), 30% "
-          "ParseFields+Apply on a store with a random declared subset; a quarter of the cases with unclean prefixes/tag names (trailing and doubled slashes, '.', '..', rooted); plus 187 exhaustive path.Join rows (136672 pairs; 770k thorough), AllowLookup on/off, 12% of names missing at the service; plus path.Join pairs; one case = one run; "
+          "ParseFields+Apply on a store with a random declared subset; a quarter of the cases with unclean prefixes/tag names (trailing and doubled slashes, '.', '..', rooted); plus 400 multi-value cases (65% values of one type; NewStore{Structs} with an earlier struct failing and the last clean in ~30% of them); plus 187 exhaustive path.Join rows (136672 pairs; 770k thorough), AllowLookup on/off, 12% of names missing at the service; plus path.Join pairs; one case = one run; "
           "non-trivial if the argument is a struct pointer with at least two tagged leaf fields and the run got as far as Apply; distinct by input"),
-    explain=("the names requested or returned by Secrets(), the error class/number of joined errors, a field's content, a handle's binding, an untagged field, or the store's bytes after a []byte field "
+    explain=("with several structs: which value was populated, whether NewStore reported the failing struct's error; the names requested or returned by Secrets(), the error class/number of joined errors, a field's content, a handle's binding, an untagged field, or the store's bytes after a []byte field "
              "was overwritten differ from the model of fields.go that provably satisfies the property"),
     assumptions=["encoding/json's verdict on (field type, bytes) and the unmarshaler's verdict on bytes are inputs of the model (recorded per case)",
                  "tag names are non-empty (the code rejects empty ones); in generated struct cases they contain no comma, quote or control byte (struct-tag syntax); prefixes and names are otherwise arbitrary, clean or not (path.Join is compared exhaustively over a 5-letter alphabet up to total length 6/7 and on random longer strings)",
